@@ -267,15 +267,15 @@ Definition build_doc (hops : list hop) (specs : list pspec) : result cdoc :=
   do ps <- add_all [] specs;
   Ok (mkDoc h ps).
 
-(** * Reading a document back: raw items and every property of every paragraph *)
+(** * Reading a document back: every property of every paragraph
+      (the raw fields are observed through the dump) *)
 Record pview := mkView {
   pv_files : bool;                      (* FilesParagraph / LicenseParagraph (header: false) *)
-  pv_raw : para;                        (* [(k, p[k]) for k in p] *)
   pv_vals : list (result fval)          (* the properties, in table order *)
 }.
 
 Definition view_of (isf : bool) (fs : list rfield) (d : para) : pview :=
-  mkView isf d (map (fun f => getter f d) fs).
+  mkView isf (map (fun f => getter f d) fs).
 
 Definition para_view (p : cpara) : pview :=
   match p with
